@@ -300,6 +300,10 @@ def lines_ghost():
                 ex.oblige("lines_int/single-item-appends-its-number", z3.And(kind(c) == 0, num_term(args[0])[0] == lo(c)))
                 self.count = c + 1
                 return None
+            if name == "extend" and len(args) == 1 and isinstance(args[0], SymSeq):
+                import ast as _ast
+                self.sym_binop(ex, _ast.Add(), args[0], False)  # xs.extend(ys) is xs += ys
+                return None
             raise Unsupported("lines_int." + name)
 
         def sym_contains(self, ex, item):
@@ -321,13 +325,19 @@ def line_range_unit(res):
     G = lines_ghost()
     FlatList = G["FlatList"]
 
+    def _acc(env):
+        # the accumulator of get_line_range: the one local that is an (initially empty) list / the ghost list, whatever its name
+        names = [n_ for n_, v_ in env.items() if isinstance(v_, FlatList) or (isinstance(v_, list) and not v_)]
+        return names[0] if len(names) == 1 else "lines_int"
+
     class Hook:
         def pre_havoc(self, ex_, env):
-            if isinstance(env.get("lines_int"), list) and not env["lines_int"]:
-                env["lines_int"] = FlatList()
+            a = _acc(env)
+            if isinstance(env.get(a), list) and not env[a]:
+                env[a] = FlatList()
 
     def inv(ex_, env, k):
-        v = env.get("lines_int")
+        v = env.get(_acc(env))
         if isinstance(v, list) and not v:
             return k == 0
         return v.count == k if isinstance(v, FlatList) else z3.BoolVal(False)
@@ -351,13 +361,19 @@ def inspect_selection_unit(res):
     G = lines_ghost()
     FlatList, kind, lo, hi, n = G["FlatList"], G["kind"], G["lo"], G["hi"], G["n"]
 
+    def _acc(env):
+        # the accumulator of get_line_range: the one local that is an (initially empty) list / the ghost list, whatever its name
+        names = [n_ for n_, v_ in env.items() if isinstance(v_, FlatList) or (isinstance(v_, list) and not v_)]
+        return names[0] if len(names) == 1 else "lines_int"
+
     class Hook:
         def pre_havoc(self, ex_, env):
-            if isinstance(env.get("lines_int"), list) and not env["lines_int"]:
-                env["lines_int"] = FlatList()
+            a = _acc(env)
+            if isinstance(env.get(a), list) and not env[a]:
+                env[a] = FlatList()
 
     def inv(ex_, env, k):
-        v = env.get("lines_int")
+        v = env.get(_acc(env))
         if isinstance(v, list) and not v:
             return k == 0
         return v.count == k if isinstance(v, FlatList) else z3.BoolVal(False)
